@@ -422,6 +422,25 @@ namespace
                         ctx.rep.digest(h.h);
                     }
                     report(f, c, names[k]);
+                    // a graph snapshot is a single-direction flow graph too: its labelling is
+                    // judged after every update (it is refreshed behind its back by the parent)
+                    for (auto& op : c.prog.ops)
+                        if (op.rfind("gsnap", 0) == 0 && f.empty())
+                        {
+                            auto& sg = fg.graph_snapshot(op);
+                            auto slab = sg.basins();
+                            ++ctx.rep.ops;
+                            GState ss = extract_state(sg.impl(), out);
+                            std::vector<std::size_t> slabels(slab.begin(), slab.end());
+                            std::vector<std::size_t> soutlets = sg.impl().outlets();
+                            std::vector<std::size_t> spits = sg.impl_ptr()->pits();
+                            Findings sf;
+                            oracle_c19(in, ss, slabels, soutlets, spits, sf);
+                            for (auto& x : sf)
+                                x.sig += "/on-graph-snapshot";
+                            report(sf, c, std::string(names[k]) + ", snapshot " + op);
+                            ctx.rep.hit("snapshot-graphs-labelled");
+                        }
                 }
             }
         }
@@ -863,7 +882,7 @@ namespace
         }
         else if (prop == "C19")
             s.progs = { P("single"),          P("pflood+single"),  P("single+mst:k:c"),
-                        P("single+mst:k:b"), P("single+mst:b:c"), P("single+mst:b:b") };
+                        P("single+mst:k:b"), P("single+mst:b:c"), P("single+mst:b:b"), P("single+gsnap1+mst:k:c") };
         return s;
     }
 
